@@ -228,7 +228,13 @@ def run(db: DB, rep: Report) -> None:
     nad = anchors[PREDICATES[0]]
     rets_true = [n for n in walk_no_nested(nad.node) if isinstance(n, ast.Return) and
                  isinstance(n.value, ast.Constant) and n.value.value is True]
-    rep.check("E1", len(rets_true) >= 1 and all(paths.guards(r, stop=nad.node) for r in rets_true),
+    # (or it returns a computed truth value that depends on its argument)
+    computed = [n for n in walk_no_nested(nad.node) if isinstance(n, ast.Return) and n.value is not None and
+                not isinstance(n.value, ast.Constant) and
+                ((paths.load_names(n.value) |
+                  paths.backward_slice(nad.node, sorted(paths.load_names(n.value)), with_control=False)[0])
+                 & set(nad.call_params))]
+    rep.check("E1", bool(computed) or (len(rets_true) >= 1 and all(paths.guards(r, stop=nad.node) for r in rets_true)),
               db.loc(nad.node), nad.short, "predicate:nway-after-dyn",
               "__nway_after_dyn can return True under a test",
               "__nway_after_dyn can no longer report an n-way split after a dynamic split")
